@@ -203,7 +203,7 @@ func judge(s *drive.Sys, path []drive.Event, changed bool) []drive.Violation {
 func run(c *lib.Ctx) {
 	defer drive.Quiet()()
 	evs := alphabet(!c.Quick())
-	depth := lib.Pick(c, 5, 5)
+	depth := lib.Pick(c, 4, 5)
 	seedDepth := lib.Pick(c, 3, 4)
 	c.Set("alphabet", drive.EventsText(evs))
 	c.Set("alphabet_size", len(evs))
